@@ -55,10 +55,10 @@ var sortOverrides = map[string]string{
 	"github.com/cosmos/cosmos-sdk/types.AccAddress": "Str",
 	"github.com/cosmos/cosmos-sdk/types.Context":    "Ctx",
 	"github.com/cosmos/cosmos-sdk/types.Coins":      "Coins",
-	"time.Time":                                     "Int", // microseconds are too coarse: nanoseconds since epoch
-	"time.Duration":                                 "Int", // nanoseconds
-	"context.Context":                               "Ctx",
-	"math/big.Int":                                  "Int",
+	"time.Time":       "Int", // microseconds are too coarse: nanoseconds since epoch
+	"time.Duration":   "Int", // nanoseconds
+	"context.Context": "Ctx",
+	"math/big.Int":    "Int",
 	"github.com/cosmos/cosmos-sdk/store/prefix.Store": "Str", // a prefix store is represented by its accumulated key prefix
 }
 
